@@ -35,6 +35,7 @@ type Loaded struct {
 	rtPath             string
 	loadSeconds        float64
 	disable            map[string]bool
+	zeroStubs          map[string]bool
 }
 
 const rtPkgPath = "github.com/safing/portbase/zz_verifrt"
@@ -46,6 +47,13 @@ var defaultInitAllow = []string{
 	"github.com/tevino/abool", "internal/itoa", "slices", "cmp", "maps", "strconv",
 	"github.com/armon/go-radix", "internal/stringslite", "encoding/base64", "encoding/hex",
 	"golang.org/x/sync/errgroup", "github.com/hashicorp/go-multierror", "github.com/hashicorp/errwrap",
+}
+
+// functions replaced by "return the zero value of every result"
+var defaultZeroStubs = []string{
+	"github.com/gofrs/uuid.FromString", "github.com/gofrs/uuid.Must", "github.com/gofrs/uuid.NewV4",
+	"github.com/gofrs/uuid.NewV5", "github.com/safing/portbase/utils.RandomUUID",
+	"github.com/safing/portbase/utils.DerivedUUID", "github.com/safing/portbase/utils.DerivedInstanceUUID",
 }
 
 // globals of packages whose init is not executed that may nevertheless be
@@ -88,7 +96,10 @@ func loadProgram(repo string, overlay map[string][]byte, patterns []string, init
 	ld := &Loaded{prog: prog, fset: prog.Fset, pkgs: map[string]*ssa.Package{},
 		initAllow: map[string]bool{}, globalAllow: map[string]bool{},
 		intrCache: map[*ssa.Function]intrinsicFn{}, intrKnown: map[*ssa.Function]bool{},
-		redirCache: map[*ssa.Function]*ssa.Function{}}
+		redirCache: map[*ssa.Function]*ssa.Function{}, zeroStubs: map[string]bool{}}
+	for _, z := range defaultZeroStubs {
+		ld.zeroStubs[z] = true
+	}
 	for _, p := range prog.AllPackages() {
 		ld.pkgs[p.Pkg.Path()] = p
 	}
